@@ -4,7 +4,7 @@
 
 From Coq Require Import String.
 From JP Require Import Bytes Dec Spec Proto Value ProtoValue
-  Model.Token Model.Pointer Model.Slice Model.Index Model.Tree.
+  Model.Token Model.Pointer Model.Slice Model.Index Model.Tree Model.Conv.
 
 Definition is_op (op : str) (name : string) : bool := str_eqb op (s2b name).
 Arguments is_op _ _%string.
